@@ -43,6 +43,7 @@ Fifth round: C13.1 neither gen_uniqueid nor eventfile_unique_name carries a memo
 Sixth round: C13.6 only the owner modules write running / cleanup links (whole-package clause, now part of every run).
 Seventh round: C13.5 an event popped from the queue reaches the dispatch on its kind on every path (the limit is tested before the pop); the manager starts idle and is activated only by the first synchronisation.
 Eighth round: C13.2 the clean-up service removes the clean-up link last (no finish() reachable after the removal); C13.5 an activation is followed by a synchronisation on every path, also when the cache is empty.
+Ninth round: C13.3 the container tombstone is consumed on every normal exit of MonitorContainerCleanup.execute (returns True, also when the running link is gone).
 Does NOT decide interleavings of events with clean-up completion.
 """
 
